@@ -138,7 +138,19 @@ func execIff(c core.Case) []core.Rec {
 	default:
 		fs = meta.AllFeaturesOn()
 	}
-	text := iffModule(stmt, ExprText(toks))
+	// written with the module's own prefix the names mean the same features (RFC 7950 7.20.2:
+	// a feature name may carry a prefix)
+	written := toks
+	if own, _ := c["ownprefix"].(bool); own {
+		written = nil
+		for _, t := range toks {
+			if t == "a" || t == "b" || t == "c" {
+				t = "f:" + t
+			}
+			written = append(written, t)
+		}
+	}
+	text := iffModule(stmt, ExprText(written))
 	res := core.Rec{"panic": false, "err": false, "present": false, "msg": ""}
 	func() {
 		defer func() {
